@@ -4,7 +4,7 @@
 From Coq Require Import List ZArith Bool.
 From Coq.Strings Require Import Byte.
 Import ListNotations.
-From SV Require Import Text G_attr C18_Model C18_Heap C18_Lemmas C18_Good C18_HeapLemmas C18_HeapOps C18_Refine.
+From SV Require Import Text G_attr C18_Model C18_Heap C18_Lemmas C18_Good C18_HeapLemmas C18_HeapOps C18_Refine C18_Obj C18_ObjLemmas.
 
 (* --- Attr/Meta as a mapping: get after set (the stored value is the recursively converted one) --- *)
 Theorem C18_get_set_same : forall g kvs k v, is_attr g = true ->
@@ -332,3 +332,100 @@ Example C18_witness_good :
   = TMap TgMeta [(bs "l"%bs, TList [TMap TgDict []]);
                  (bs "q"%bs, TMap TgAttr [(bs "r"%bs, TInt 2); (bs "s"%bs, TMap TgAttr [])])].
 Proof. exact demo_good. Qed.
+
+(* ================= object model (lib/C18_Obj.v): BioSeq / BioBasket / FeatureList / Feature / LocationTuple / Location / Meta
+   as a heap of objects with identities; every public operation is a program for a capability-checked interpreter ================= *)
+
+(* deepcopy as GRAPH copy: only new cells, referring to new cells only; every old cell is left as it is *)
+Theorem C18_obj_graph_copy_fresh : forall h l h' l', graph_copy h l = Some (h', l') ->
+  exists cells, h' = h ++ cells /\ length h <= l' < length h' /\
+    Forall (fun c => Forall (fun v => match v with HRef a => length h <= a < length h' | _ => True end) (ocell_vals c)) cells.
+Proof. exact graph_copy_spec. Qed.
+Print Assumptions C18_obj_graph_copy_fresh.
+
+(* THE interpreter theorem: ANY program run by the side that owns its operands keeps the two-colour separation invariant,
+   changes no cell of the other colour and returns a value of its own colour *)
+Theorem C18_obj_interp_separation : forall side c kn h h' r,
+  fresh_true side (length h) -> ocells_inv side h -> known_ok side (length h) kn ->
+  interp c kn h = inl (h', r) ->
+  ocells_inv side h' /\ length h <= length h' /\ okv side (length h') true r /\
+  (forall l, side l = false -> nth_error h' l = nth_error h l).
+Proof. exact interp_inv. Qed.
+Print Assumptions C18_obj_interp_separation.
+
+Theorem C18_obj_step_separation : forall side R s o s' r, fresh_true side (length (fst s)) -> oinv side R s -> oregs_in R o = true ->
+  ostep o s = inl (s', r) -> ostep_ok side R s s'.
+Proof. exact ostep_sep. Qed.
+Print Assumptions C18_obj_step_separation.
+
+(* any history by the R-side leaves every observation (canonical dump of the object graph, any fuel) through the other side unchanged *)
+Theorem C18_obj_exec_frame : forall side R ops s, fresh_true side (length (fst s)) -> oinv side R s ->
+  forallb (oregs_in R) ops = true ->
+  oinv side R (oexec ops s) /\ fresh_true side (length (fst (oexec ops s))) /\
+  forall k n, R k = false -> view n (oexec ops s) k = view n s k.
+Proof. exact oexec_frame. Qed.
+Print Assumptions C18_obj_exec_frame.
+
+Theorem C18_obj_exec_is_run : forall ops s okd acc, snd (orun ops s okd acc) = oexec ops s.
+Proof. exact orun_oexec. Qed.
+Print Assumptions C18_obj_exec_is_run.
+
+(* every state reachable from the empty store by ANY program is well formed: no dangling reference *)
+Theorem C18_obj_reachable_ok : forall ops, let s := oexec ops oinit in
+  oinv all_true all_true s /\ oheap_ok (fst s) /\ forall k, vref_lt (length (fst s)) (oreg s k).
+Proof. exact oreachable_ok. Qed.
+Print Assumptions C18_obj_reachable_ok.
+
+(* COPY ISOLATION: after ANY prefix, r_i = nav(r_j, q).copy(); then for every finite sequence of modelled public operations
+   whose variables are r_i and scratch variables holding no object at that moment, every observation through every other
+   variable is unchanged -- and vice versa: every sequence that does not use r_i leaves every observation through r_i unchanged *)
+Theorem C18_obj_copy_isolation : forall pre i j q s1 r, i < nregs ->
+  ostep (OPure i PCopy j q) (oexec pre oinit) = inl (s1, r) ->
+  (forall R ops, R i = true -> (forall k, k <> i -> R k = true -> forall l, oreg s1 k <> HRef l) ->
+     forallb (oregs_in R) ops = true -> forall k n, R k = false -> view n (oexec ops s1) k = view n s1 k) /\
+  (forall R ops, R i = false -> (forall k, k <> i -> R k = false -> forall l, oreg s1 k <> HRef l) ->
+     forallb (oregs_in R) ops = true -> forall k n, R k = false -> view n (oexec ops s1) k = view n s1 k).
+Proof. exact obj_copy_isolation. Qed.
+Print Assumptions C18_obj_copy_isolation.
+
+(* in-place operations (reverse, str.lower/upper, +=, sort, filter(inplace=True) on sequences and baskets of ANY size, the empty
+   basket included) return the receiver itself and re-bind no other variable *)
+Theorem C18_obj_inplace_returns_receiver : forall d f j q s s' r, ostep (OInpl d f j q) s = inl (s', r) ->
+  exists l, onav_pure (fst s) (oreg s j) q = Some (HRef l) /\ r = HRef l /\
+            snd s' = match d with Some i => set_nth (snd s) i (HRef l) | None => snd s end.
+Proof. exact inplace_returns_receiver. Qed.
+Print Assumptions C18_obj_inplace_returns_receiver.
+
+(* operations documented as not in-place (copy, slicing, +, filter, plain access) leave every existing object as it was *)
+Theorem C18_obj_pure_only_allocates : forall i f j q s s' r, ostep (OPure i f j q) s = inl (s', r) ->
+  length (fst s) <= length (fst s') /\ (forall l, l < length (fst s) -> nth_error (fst s') l = nth_error (fst s) l) /\
+  (forall k, k <> i -> oreg s' k = oreg s k).
+Proof. exact pure_only_allocates. Qed.
+Print Assumptions C18_obj_pure_only_allocates.
+
+Theorem C18_obj_pure_not_inplace : forall i f j q s s' r, oinv all_true all_true s -> ostep (OPure i f j q) s = inl (s', r) ->
+  forall k n, k <> i -> view n s' k = view n s k.
+Proof. exact pure_not_inplace. Qed.
+Print Assumptions C18_obj_pure_not_inplace.
+
+(* non-vacuity / sharing by design: a slice shares meta.fts and nested metadata with its origin (seq.py:316-330, 498) but has its
+   own top-level meta; copy() shares nothing; sort returns the receiver *)
+Example C18_witness_obj_sharing : wf_C18_obj demo_share = true /\
+  (let '(_, res, _) := orun demo_share oinit true [] in
+   map (fun i => nth i res VNone) [2; 3; 4; 6; 7; 9] = [VB false; VB true; VB true; VB false; VB false; VB true]).
+Proof. exact demo_share_run. Qed.
+
+(* non-vacuity of C18_obj_copy_isolation: after a prefix with a slice (shared metadata), the copy succeeds; a history of in-place
+   transformations, nested metadata edits, deletion, fts assignment and feature append on the copy changes the copy and leaves
+   the original and the slice alone *)
+Example C18_witness_obj_copy :
+  let pre := [ONew 0 demo_basket; OPure 2 (PSlice 0 1) 0 []] in
+  let ops := [OInpl None FReverse 1 [PI 0]; OMut (MSetLit (bs "b"%bs) (TInt 2)) 1 [PI 0; pmeta; PK (bs "a"%bs)];
+              OMut (MDelIdx 1) 1 []; OInpl (Some 1) FLower 1 []; OBin None BSetFts 1 [PI 0] 1 [PI 0; pmeta; pfts];
+              OMut (MAppendFeat (FeatLit None [LocLit 0 1 (bs "-"%bs) 0 (TMap TgDict [])] (TMap TgDict []))) 1 [PI 0; pmeta; pfts]] in
+  exists s1, ostep (OPure 1 PCopy 0 []) (oexec pre oinit) = inl (s1, HRef 16) /\ 1 < nregs /\
+             forallb (oregs_in (only 1)) ops = true /\
+             wf_C18_obj (pre ++ [OPure 1 PCopy 0 []] ++ ops) = true /\
+             view 99 (oexec ops s1) 1 <> view 99 s1 1 /\
+             view 99 (oexec ops s1) 0 = view 99 s1 0 /\ view 99 (oexec ops s1) 2 = view 99 s1 2.
+Proof. exact demo_obj_copy. Qed.
